@@ -492,6 +492,41 @@ def generate(seed: int, index: int, n: int, k: int) -> Dict[str, Any]:
             "listing": listing, "index": index}
 
 
+def gen_chains(seed: int, index: int, n: int, count: int, cross_points: Sequence[int]) -> List[Dict[str, Any]]:
+    """Snapshot generations as a generated dimension (generation 1 = every step index, enumerated by the main
+    run).  A chain {"pts": [k1, k2(, k3)], "origin": ...} means: a fresh machine loads the bundle taken before
+    step k1, runs on to k2 and is saved again; a fresh machine loads that second-generation bundle (and, for
+    three points, runs on to k3, is saved, and a fourth machine loads the third-generation bundle).  Gaps
+    between the points range from 0 (save right after load) over a few steps (still inside the same handler /
+    LCD burst) to most of the run.  origin "own": the first bundle was written by the model under test;
+    "other": by the other implementation (cross-loaded image as the machine's ancestry; k1 is then one of the
+    scenario's cross-load points)."""
+    st = Stream(seed, 0xC16C, index)
+    out: List[Dict[str, Any]] = []
+    seen = set()
+    xp = [int(p) for p in cross_points if int(p) < n] or [int(p) for p in cross_points]
+    for _ in range(count * 3):
+        if len(out) >= count:
+            break
+        gens = 3 if st.chance(1, 3) else 2
+        origin = "other" if (xp and st.chance(1, 4)) else "own"
+        k1 = st.choice(xp) if origin == "other" else st.below(n)
+        pts = [k1]
+        for _g in range(gens - 1):
+            room = n - pts[-1]
+            if room <= 0 or st.chance(1, 8):
+                gap = 0
+            else:
+                gap = 1 + st.below(min(room, st.choice((3, 8, 16, n))))
+            pts.append(pts[-1] + gap)
+        key = (tuple(pts), origin)
+        if key in seen:
+            continue
+        seen.add(key)
+        out.append({"pts": pts, "origin": origin})
+    return out
+
+
 def rom_image(scen: Dict[str, Any]) -> bytes:
     img = bytearray(0x40000)
     for addr, hx in scen["rom"]:
